@@ -65,7 +65,7 @@ def _run(self):
         if self.mode & 2:
             # the worker dies without reporting: killed outright, a silent exit(0), or exit(1) (by task number)
             import signal
-            how = self.k % 3
+            how = int(os.environ.get('VERIF_DIE_HOW', self.k % 3))
             if how == 0:
                 os.kill(os.getpid(), signal.SIGKILL)
             os._exit(0 if how == 1 else 1)
